@@ -16,21 +16,6 @@ From TK Require Import Conn_Model Conn_Spec Conn_Proof_Graph Conn_Proof_Dfs
      Conn_Proof_Strong Conn_Proof_Warshall Conn_Proof Conn_Proof_Main Conn_Proof_Order.
 Import ListNotations.
 
-Definition others (N i : nat) : list nat := filter (fun x => negb (x =? i)) (seq 0 N).
-
-Definition cnt_lt (dist : nat -> nat -> Z) (N i a : nat) : nat :=
-  length (filter (fun x => (dist i x <? dist i a)%Z) (others N i)).
-Definition cnt_le (dist : nat -> nat -> Z) (N i a : nat) : nat :=
-  length (filter (fun x => (dist i x <=? dist i a)%Z) (others N i)).
-
-Definition boundary_free_b (dist : nat -> nat -> Z) (N k : nat) : bool :=
-  forallb (fun i => forallb (fun a => (cnt_le dist N i a <=? k) || (k <=? cnt_lt dist N i a))
-                            (others N i)) (seq 0 N).
-
-Definition rows_unique (dist : nat -> nat -> Z) (N k : nat) : Prop :=
-  forall i r1 r2, i < N -> is_knn_row dist N k i r1 -> is_knn_row dist N k i r2 ->
-  forall j, In j r1 -> In j r2.
-
 Lemma others_In : forall N i x, In x (others N i) <-> x < N /\ x <> i.
 Proof.
   intros N i x. unfold others. rewrite filter_In, in_seq, negb_true_iff, Nat.eqb_neq. lia.
